@@ -6,6 +6,7 @@ CONSTANTS
   PVals = {0, 1, 2, 3, 4, 5}
   LVals = {0, 1, 2, 3, 4}
   ForbSets = {{}}
+  HookExcs = {"badvalue", "hardware", "other"}
   Inits = {13}
   PV = {2}
   MinV = {1, 3}
